@@ -101,6 +101,10 @@ def make_map(src, scheme, rnd, dictionary):
             n = pick(["r#Self_", "r#type", "r#match", "r#async", "r#dyn", "r#loop", "r#fn"])
             if n:
                 m[v] = n
+        for p in params:
+            n = pick(["r#trait", "r#impl", "r#where", "r#async", "r#dyn"])
+            if n:
+                m[p] = n
     elif scheme == "types_as_locals":
         for p in params:
             n = pick([x for x in dictionary["locals"] if re.fullmatch(r"[a-z_][a-z0-9_]*", x)])
